@@ -320,6 +320,8 @@ fn str_to_partial_tokens<NumericTypes: EvalexprNumericTypes>(
 
             if let PartialToken::Slash = partial_token {
                 if try_skip_comment(&mut iter)? {
+                    // A comment separates tokens like a whitespace does
+                    result.push(PartialToken::Whitespace);
                     continue;
                 }
             }
